@@ -69,6 +69,8 @@ pub enum Trap {
     LimitOdd(u8),
     /// join kind x ON condition x tail (every physical join operator and its outer-row bookkeeping)
     Join(u8, u8, u8),
+    /// INSERT ... SELECT, also from the table being written
+    InsertSelect(u8),
 }
 
 #[derive(Clone, Debug, Serialize, Deserialize, Hash)]
@@ -132,6 +134,7 @@ fn trap_sql(t: &Trap) -> (String, &'static str) {
             (format!("SELECT a FROM t WHERE a IN ({})", (0..n).map(|i| i.to_string()).collect::<Vec<_>>().join(", ")), "trap.long_in_list")
         }
         Trap::OrderByOdd(k) => (["SELECT a FROM t ORDER BY 1", "SELECT a FROM t ORDER BY 9", "SELECT a FROM t ORDER BY a / 0", "SELECT c, COUNT(*) FROM t GROUP BY c ORDER BY c", "SELECT a FROM t ORDER BY c || 'x', a DESC", "SELECT COUNT(*) FROM t ORDER BY a", "SELECT a FROM t GROUP BY a ORDER BY b"][*k as usize % 7].to_string(), "trap.order_by"),
+        Trap::InsertSelect(k) => (["INSERT INTO t SELECT * FROM t", "INSERT INTO t SELECT * FROM t WHERE a > 1", "INSERT INTO u SELECT a + 1000, c FROM t", "INSERT INTO t (a) SELECT k + 500 FROM u", "INSERT INTO t SELECT a, b, c, d, e FROM t ORDER BY a LIMIT 1", "INSERT INTO u SELECT k + 100, e FROM u", "INSERT INTO t SELECT * FROM u", "INSERT INTO t SELECT t.a, t.b, t.c, t.d, t.e FROM t JOIN u ON t.a = u.k", "INSERT INTO u SELECT k, e FROM u", "INSERT INTO t SELECT a / 0, b, c, d, e FROM t"][*k as usize % 10].to_string(), "trap.insert_select"),
         Trap::Join(k, c, w) => {
             let kind = ["JOIN", "LEFT JOIN", "RIGHT JOIN", "FULL JOIN", "CROSS JOIN", "INNER JOIN", "LEFT OUTER JOIN", "RIGHT OUTER JOIN", "FULL OUTER JOIN"][*k as usize % 9];
             let on = ["t.a = u.k", "t.a < u.k", "t.a > u.k", "t.a <> u.k", "t.a <= u.k", "t.a = u.k OR t.b = u.k", "t.a = u.k AND t.b < u.k", "1 = 1", "t.a = u.k AND t.c = u.e", "t.a / 0 = u.k", "t.c = u.e", "t.a IS NULL", "u.k IS NULL", "t.a + 1 = u.k", "NULL", "t.a = u.k AND t.a = u.k", "t.e", "u.k = t.a AND u.k > 1"][*c as usize % 18];
@@ -294,6 +297,7 @@ pub fn run_case(c: &RCase) -> CaseOut {
     let mut had_failure = false;
     // a successful statement may have changed u's shape (DDL): the write probe below only runs while none did
     let mut schema_touched = false;
+    let mut insert_selects = 0;
     // a statement failed inside a session while the open finding about such statements is excluded: what the session
     // leaves behind (e.g. a committed row that is in no index) is that finding's business, the write probe stays off
     let mut polluted = false;
@@ -357,6 +361,16 @@ pub fn run_case(c: &RCase) -> CaseOut {
         if tag == "trap.big_text" && sql.len() > 400 && c.excluded.iter().any(|x| x == "payload.overflow_cell") {
             out.excluded.push("payload.overflow_cell".into());
             continue;
+        }
+        // INSERT ... SELECT from the table itself doubles it: a handful per case keeps "bounded time" meaningful
+        {
+            let u = sql.to_uppercase();
+            if u.contains("INSERT") && u.contains("SELECT") {
+                if insert_selects >= 4 {
+                    continue;
+                }
+                insert_selects += 1;
+            }
         }
         let s_id = if sess { Some(0u8) } else { None };
         let before = if *check_state { snapshot_state(&mut db, s_id) } else { vec![] };
@@ -511,6 +525,7 @@ fn gen_trap() -> BoxedStrategy<Trap> {
         any::<u16>().prop_map(Trap::LongInList),
         any::<u8>().prop_map(Trap::OrderByOdd),
         any::<u8>().prop_map(Trap::LimitOdd),
+        any::<u8>().prop_map(Trap::InsertSelect),
         (any::<u8>(), any::<u8>(), any::<u8>()).prop_map(|(k, c, w)| Trap::Join(k, c, w)),
         (any::<u8>(), any::<u8>(), any::<u8>()).prop_map(|(k, c, w)| Trap::Join(k, c, w)),
     ]
@@ -676,7 +691,7 @@ pub fn fuzz_seed_corpus() -> Vec<Vec<u8>> {
     // fuzzer mutates around them instead of having to invent SQL from nothing
     let mut traps: Vec<Trap> = vec![Trap::Ambiguous, Trap::AggInWhere, Trap::Having, Trap::Union, Trap::UniqueViolation];
     for k in 0..18u8 {
-        traps.extend([Trap::DivZero(k), Trap::Overflow(k), Trap::WrongTypes(k), Trap::UnknownName(k), Trap::Case(k), Trap::Subquery(k), Trap::LikeOdd(k), Trap::InsertShape(k), Trap::DdlExisting(k), Trap::OrderByOdd(k), Trap::LimitOdd(k), Trap::Func(k, k), Trap::Func(k, k.wrapping_mul(7) % 15)]);
+        traps.extend([Trap::InsertSelect(k), Trap::DivZero(k), Trap::Overflow(k), Trap::WrongTypes(k), Trap::UnknownName(k), Trap::Case(k), Trap::Subquery(k), Trap::LikeOdd(k), Trap::InsertShape(k), Trap::DdlExisting(k), Trap::OrderByOdd(k), Trap::LimitOdd(k), Trap::Func(k, k), Trap::Func(k, k.wrapping_mul(7) % 15)]);
         traps.push(Trap::Join(k % 9, k, k % 9));
         traps.push(Trap::Join((k + 2) % 9, k, 0));
     }
